@@ -159,6 +159,9 @@ def main():
             if got != "Reject":
                 bad("MixedUnitsRejected:%s%s" % (op, ratio_side), dict(case=c, got=got))
             continue
+        if got == "Reject" and c.get("mayRefuse"):
+            rep["refused_named_limitation"] = rep.get("refused_named_limitation", 0) + 1
+            continue  # named limitation: refusing is allowed, a wrong answer is not
         if isinstance(got, str):
             bad("Unexpected%s:%s%s" % ("Reject" if got == "Reject" else "Error", op, ratio_side), dict(case=c, got=got))
             continue
